@@ -224,7 +224,7 @@ def run_parsers(prop, tier):
                            "with the pristine-process reference and with a pristine process under another hash seed; "
                            "distinct = distinct (op-kind sequence incl. fired faults, workload sources); non-trivial = contains a re-run "
                            "on the same object, a second object, or a fired cancel")
-            cov["faults_fired"] = {k: agg.stats[k] for k in ("cancel_stmt_fired", "cancel_line_fired", "dump_fault_fired", "clock_jumps", "env_flip_evaluations")}
+            cov["faults_fired"] = {k: agg.stats[k] for k in ("cancel_stmt_fired", "cancel_line_fired", "alloc_fault_fired", "alloc_fault_swallowed", "dump_fault_fired", "clock_jumps", "env_flip_evaluations")}
             cov["sensing"] = {"clock_reads_by_library": agg.stats["clock_reads_by_library"], "clock_slept_s": agg.stats["clock_slept_s"],
                               "env_reads_by_library_in_other_process": agg.stats["env_reads_by_library"],
                               "env_dependent_outcomes": agg.stats["env_dependent_outcomes"],
